@@ -219,5 +219,8 @@ def run(tier='quick'):
                               'the sibling / entity chain half relinked' % (_short(qn), bad[0].what, bad[0].first))
             else:
                 chk.ok(P4, inst, locstr(f.node))
+    # the guard these operations rely on begins, commits and rolls back as its name promises
+    from . import c14
+    c14._guard_shape(prog, eff, chk, P4)
     return chk.finish('parsed triggers of every supported 2.x DDL; value-flow interpretation of the 2.x crate '
                       'move / create-after operations and of add_back; structural check of the two chain walkers')
